@@ -256,6 +256,22 @@ CLAIMED = {
         "semantics on inf/NaN as modelled, np.loadtxt/savetxt.",
         "Lean 4 proof over an ordered field with extended values + exact-rational correspondence via real files",
         "DESIGN.md §5 C15"),
+    "C20": (
+        "Machine-checked Lean 4 proof, for every list of files and every map, about a hand model of load_data, "
+        "IndentationGroup.append and the quantitative map: the loaded list is the concatenation of the files' curves "
+        "(one object per curve, file order); the progress values handed to the callback are non-decreasing, inside "
+        "[0, 1] and end at 1 whenever every file reader reports non-decreasing values in [0, 1] (ordered field, any "
+        "number of files); a group refuses exactly the curves with neither a spring constant nor a tip position; the "
+        "map holds at each pixel the current value (contact point x 1e9, modulus, rating) of the last curve recorded "
+        "there and NaN where there is no curve, no successful fit or no rating, and a refit changes only that pixel. "
+        "Tied by recording the raw progress values of the real readers and the maps of real groups and executing the "
+        "model on the same data. Partial: the afmformats readers, find_data order, HDF5/zip I/O, the Indentation "
+        "class of the returned objects, enumerations and the warnings are observed by the oracle, not proved.",
+        "Trusted: Lean kernel, standard axioms, hand model (sampled exact correspondence), afmformats readers as "
+        "parameters (their progress monotonicity is measured on every run).",
+        "Lean 4 proof (induction over the file list; fold over the curves of a map) + correspondence on recorded "
+        "reader progress and real maps + property oracle on recorded files, synthetic folders and in-memory maps",
+        "DESIGN.md §5 C20"),
 }
 
 PENDING_REASON = "check not built yet in this round (planned, see DESIGN.md §8); not claimed until its machinery exists"
